@@ -152,7 +152,7 @@ func (c *synthCase) fontBytes() []byte {
 // kilobytes, so the scanner's shared table buffer is larger than any table of the case.
 func fillerFont() []byte {
 	st := subtable{Platform: 3, Encoding: 10, Format: 12}
-	for i := 0; i < 400; i++ {
+	for i := 0; i < 200; i++ {
 		st.Groups = append(st.Groups, group{Start: uint32(0x100 + 16*i), End: uint32(0x100 + 16*i + 7), Glyph: 1})
 	}
 	c := synthCase{Subtables: []subtable{st}, OS2: &os2Spec{Version: 4, Fill: 1}}
@@ -196,7 +196,10 @@ func sameCoverage(got, face fontscan.Footprint, ft *font.Font) string {
 					u(r), in, !in, g, ok, got.Runes.Len(), face.Runes.Len())
 			}
 		}
-		return "the recorded rune set has other pages than the coverage of the loaded face (same runes)"
+		// same membership: a different page layout is a defect only if it is observable
+		if got.Runes.Len() != face.Runes.Len() {
+			return fmt.Sprintf("the recorded rune set has the members of the coverage of the loaded face but Len() = %d instead of %d (pages duplicated)", got.Runes.Len(), face.Runes.Len())
+		}
 	}
 	if string(fontscan.VerifScriptSetSerialize(got.Scripts)) != string(fontscan.VerifScriptSetSerialize(face.Scripts)) {
 		return fmt.Sprintf("the recorded script set %v differs from the script set of the loaded face %v", got.Scripts, face.Scripts)
